@@ -18,8 +18,12 @@ import (
 )
 
 // raceOps are the client operations of spec/Access.tla on a shared backend.
-func raceBackendOps(be Backend, km *KeyMap, g int) map[string]func(i int) {
+func raceBackendOps(be Backend, km *KeyMap, g int, ttlWrites bool) map[string]func(i int) {
 	ctx := context.Background()
+	if ttlWrites {
+		ctx = cache.WithTTL(ctx, time.Minute, false)
+	}
+
 	key := func(i int) []byte { return km.ByModel[fmt.Sprintf("k%d", 1+i%4)] }
 
 	return map[string]func(i int){
@@ -97,8 +101,8 @@ func TestRaceChild(t *testing.T) {
 
 	switch {
 	case strings.HasPrefix(group, "backend:"):
-		parts := strings.Split(group, ":") // backend:<kind>:<lru|plain>
-		kind, lru := parts[1], parts[2] == "lru"
+		parts := strings.Split(group, ":") // backend:<kind>:<lru|plain|unl>
+		kind, lru, unl := parts[1], parts[2] == "lru", parts[2] == "unl"
 
 		for i, an := range raceBackendNames {
 			for _, bn := range raceBackendNames[i:] {
@@ -108,13 +112,17 @@ func TestRaceChild(t *testing.T) {
 					cc.EvictionStrategy = cache.EvictLeastRecentlyUsed
 				}
 
+				if unl {
+					cc.TimeToLive = cache.UnlimitedTTL // entries get their TTL per call
+				}
+
 				be := NewBackend(kind, cc)
 				for j := 0; j < 4; j++ {
 					_ = be.Write(context.Background(), km.ByModel[fmt.Sprintf("k%d", j+1)], "init")
 				}
 
 				mark(an + "|" + bn)
-				runPair(raceBackendOps(be, km, 1)[an], raceBackendOps(be, km, 2)[bn], iters)
+				runPair(raceBackendOps(be, km, 1, unl)[an], raceBackendOps(be, km, 2, unl)[bn], iters)
 			}
 		}
 	case group == "failover":
@@ -273,7 +281,7 @@ func TestRacePrograms(t *testing.T) {
 	var groups []string
 
 	for _, k := range Kinds {
-		groups = append(groups, "backend:"+k+":plain", "backend:"+k+":lru")
+		groups = append(groups, "backend:"+k+":plain", "backend:"+k+":lru", "backend:"+k+":unl")
 	}
 
 	groups = append(groups, "failover", "index", "invalidator")
